@@ -188,6 +188,7 @@ class Executor:
         self.log_reads = False
         self.max_steps = 5_000_000
         self.deadline = None      # wall-clock limit for one exploration (time.time() value)
+        self.max_pending = None   # limit on the number of finished + pending forked paths (treated like the time budget)
         self.call_hook = None     # optional callable(ex, path, fname, args) for call logging
         self.base_heap = {}       # heap snapshot after init (globals)
         self.merge_funcs = set()  # functions whose symbolic branches are merged at the post-dominator
@@ -513,8 +514,10 @@ class Executor:
         done = []
         work = [path]
         while work:
-            if self.deadline is not None and time.time() > self.deadline:
-                raise ExecError("exploration time budget exceeded (%d paths pending)" % len(work))
+            if (self.deadline is not None and time.time() > self.deadline) or (self.max_pending is not None and len(work) + len(done) > self.max_pending):
+                e = ExecError("exploration time budget exceeded (%d paths pending)" % len(work))
+                e.partial = done + work       # what was explored so far (facts read off these paths are still facts)
+                raise e
             p = work.pop()
             forks = self.run(p)
             if forks:
